@@ -14,7 +14,7 @@ import (
 // repeated field) are not generated.
 var MalformedKinds = map[string][]string{
 	"QueueLeaf":               {"queued.absent", "queued.leaf.absent", "leaf.undecodable", "leaf.trailing", "leaf.empty"},
-	"GetLatestSignedLogRoot":  {"root.absent", "root.garbled", "root.empty", "root.hashsize"},
+	"GetLatestSignedLogRoot":  {"root.absent", "root.garbled", "root.empty", "root.hashsize", "root.hashlong"},
 	"GetLeavesByRange":        {"root.absent", "root.garbled", "tree.small", "leaves.surplus", "leaves.misindexed"},
 	"GetInclusionProofByHash": {"root.absent", "root.garbled", "tree.small", "proof.hashsize", "proofs.empty"},
 	"GetConsistencyProof":     {"root.absent", "root.garbled", "tree.small", "proof.absent", "proof.hashsize"},
@@ -43,12 +43,16 @@ func mutateRoot(slr *trillian.SignedLogRoot, kind string) (*trillian.SignedLogRo
 		return &trillian.SignedLogRoot{LogRoot: b}, true
 	case "root.empty":
 		return &trillian.SignedLogRoot{}, true
-	case "root.hashsize":
+	case "root.hashsize", "root.hashlong":
 		var r types.LogRootV1
 		if err := r.UnmarshalBinary(slr.GetLogRoot()); err != nil {
 			return slr, true
 		}
-		r.RootHash = r.RootHash[:20]
+		if kind == "root.hashlong" {
+			r.RootHash = append(r.RootHash, r.RootHash[:16]...) // 48 bytes: a SHA-384 sized value
+		} else {
+			r.RootHash = r.RootHash[:20]
+		}
 		b, _ := r.MarshalBinary()
 		return &trillian.SignedLogRoot{LogRoot: b}, true
 	}
